@@ -24,6 +24,7 @@ def run(ctx):
     ctx.do(H.rule_g2)
     ctx.do(H.rule_odd1)
     ctx.do(DG.rule_hd1)
+    ctx.do(DG.rule_hd1_attr)
     ctx.do(u1, ENTRIES, min_functions=15)
     ctx.r.assume("every numerical clause (origin -> p, distances along "
                  "geodesics, law of cosines, polygon angles) is not decided")
